@@ -512,6 +512,17 @@ def _res_from_residual(m, args, ci):
 
 def convert_error_default(m, e, ci):
     dty = ci.dest_type(m) or ''
+    # the error type of the destination Result<T, E>: text after the last top-level comma
+    depth, cut = 0, None
+    for i, ch in enumerate(dty):
+        if ch in '<([':
+            depth += 1
+        elif ch in '>)]':
+            depth -= 1
+        elif ch == ',' and depth == 1:
+            cut = i
+    if cut is not None:
+        dty = dty[cut + 1:].strip().rstrip('>').strip()
     # Result<_, anyhow::Error> destination: wrap whatever it is
     if 'anyhow::Error' in dty and not (isinstance(e, Opaque) and e.what == 'anyhow'):
         return Opaque('anyhow', e)
